@@ -24,7 +24,7 @@ def ctest():
     return [f for f in failed if f not in FLAKY], (m.group(0) if m else r.stdout[-300:])
 
 def demo_cmd(path):
-    env = "CHIBI_IGNORE_SYSTEM_PATH=1 CHIBI_MODULE_PATH=%s/lib LD_LIBRARY_PATH=%s/_build " % (wt, wt)
+    env = "CHIBI_IGNORE_SYSTEM_PATH=1 CHIBI_MODULE_PATH=%s/_build/lib:%s/lib LD_LIBRARY_PATH=%s/_build " % (wt, wt, wt)
     if path.endswith(".scm"):
         return env + "timeout 900 %s/_build/chibi-scheme -I %s/_build/lib %s" % (wt, wt, path)
     if path.endswith(".sh"):
